@@ -112,6 +112,7 @@ int RunCase(const vh::Args& args, uint64_t c, e7::Affinity& aff)
 
     TestOpts opts;
     opts.extra_args = {"-nodebuglogfile", "-nodebug"};
+    opts.min_validation_cache = true; // avoids initialising 32 MiB of signature/script caches per node (slow under TSan)
     TestChain100Setup setup{ChainType::REGTEST, opts};
     setup.mineBlocks(12);
     ChainstateManager& chainman = *setup.m_node.chainman;
